@@ -130,5 +130,14 @@ PROPS["C20"] = {
     "note": "The supported construct set is Spec.inFDoc (DESIGN.md §7): tight lists with a single paragraph per item, no definition needing <...>, no title containing a double quote, no line starting with + or digits followed by . or ). Clause 2 compares renderings token-canonically.",
 }
 
+PROPS["C19"] = {
+    "modules": ["CM.Props.C19"],
+    "level": "other",
+    "design_ref": "DESIGN.md §6 C19",
+    "technique": "Lean 4 theorem (disjoint footprints => every interleaving equals the sequential runs) + store footprint of every entry point regenerated from go/ssa on each run and checked by kernel evaluation (footprint_ok) + race-detector harness over concurrent Parse/Render/Format/Walk/Extract with sequential comparison",
+    "text": "Data-race freedom is a statement about Go's memory model and scheduler; no model of this library exhibits a race. What is logic is the discipline that makes the property true. disjoint_footprints_schedule_independent proves, for any number of operations and any schedule, that operations which write only locations they own and otherwise read only unowned locations leave every operation with its sequential result. footprint_ok checks by kernel evaluation that the store footprint of the library, recomputed with go/ssa + CHA from /repo's current source on every run (CM.Gen.footprint), satisfies that discipline: no entry point stores to a package-level variable, and Render/AppendBlock/RenderHTML/Walk/Format/Extract store to no field of Block, Inline, RootBlock, Span or HTMLRenderer. The runtime half is the racer binary built with -race: concurrent Parse on distinct inputs and concurrent Render (18 configurations) / Format / Walk / Extract on shared trees, results compared with the sequential ones. Claimed as 'other': the link between the SSA footprint and the abstract machine is an argument, not a theorem, and the scheduler is not modelled.",
+    "note": "The footprint is a syntactic over-approximation on SSA (address roots, no alias analysis beyond allocation sites; interface and function-value calls resolved by CHA inside the library); user callbacks (Walk options, FilterTag, io.Reader/Writer) are assumed to honour their documented contracts. A hoisted scratch buffer shows up as a store to a global or to an HTMLRenderer field and makes footprint_ok fail; the racer is then the search for a witness.",
+}
+
 NOT_APPLICABLE = {
 }
